@@ -62,3 +62,26 @@ Definition CFGraph_add_edges (self_graph : dictD) (self_vertex_total_valence : d
   match CFGraph_add_edge self_graph self_vertex_total_valence self_total_valence v1_name v2_name valence with PyExn (self_graph, self_vertex_total_valence, self_total_valence) => PyExn (self_graph, self_vertex_total_valence, self_total_valence) | PyOk (self_graph, self_vertex_total_valence, self_total_valence) =>
   PyOk (self_graph, self_vertex_total_valence, self_total_valence) end end) edges (PyOk (self_graph, self_vertex_total_valence, self_total_valence)) with PyExn e_ => PyExn e_ | PyOk (self_graph, self_vertex_total_valence, self_total_valence) =>
   PyOk (self_graph, self_vertex_total_valence, self_total_valence) end.
+
+(* chipfiring/CFGraph.py :: CFGraph.__init__   reads [], writes ['self_vertices', 'self_graph', 'self_vertex_total_valence', 'self_total_valence'], may raise *)
+Definition CFGraph___init__ (set_order : list nat -> list nat) (vertices : list nat) (edges : list (nat * nat * Z)) : pyres (list nat * dictD * dictZ * Z) (list nat * dictD * dictZ * Z) :=
+  let self_total_valence := 0 in
+  let self_vertex_total_valence := (@nil (nat * Z)) in
+  let self_graph := (@nil (nat * dictZ)) in
+  let self_vertices := (@nil nat) in
+  if (negb (nodupb vertices)) then
+  PyExn (self_vertices, self_graph, self_vertex_total_valence, self_total_valence)
+  else
+  let self_vertices := vertices in
+  let self_graph := [] in
+  let self_vertex_total_valence := [] in
+  let self_total_valence := 0 in
+  match fold_left (fun acc_ vertex => match acc_ with PyExn e_ => PyExn e_ | PyOk (self_graph, self_vertex_total_valence) => 
+  let self_graph := d_set vertex [] self_graph in
+  let self_vertex_total_valence := d_set vertex 0 self_vertex_total_valence in
+  PyOk (self_graph, self_vertex_total_valence) end) (set_order self_vertices) (PyOk (self_graph, self_vertex_total_valence)) with PyExn e_ => PyExn e_ | PyOk (self_graph, self_vertex_total_valence) =>
+  if (negb (match edges with [] => true | _ :: _ => false end)) then
+  match CFGraph_add_edges self_graph self_vertex_total_valence self_total_valence edges with PyExn (self_graph, self_vertex_total_valence, self_total_valence) => PyExn (self_vertices, self_graph, self_vertex_total_valence, self_total_valence) | PyOk (self_graph, self_vertex_total_valence, self_total_valence) =>
+  PyOk (self_vertices, self_graph, self_vertex_total_valence, self_total_valence) end
+  else
+  PyOk (self_vertices, self_graph, self_vertex_total_valence, self_total_valence) end.
